@@ -474,6 +474,9 @@ def standard_streams(ctx, n_seed_cfgs=1, n_mut=200, n_soup=300, n_bytes=100, n_g
         cases.append(ctx.case("childline", gen.child_line_program(rng), gen.random_cfg(rng)))
     for text, tag in placement_sample(ctx):
         cases.append(ctx.case("placement", text, gen.random_cfg(rng), meta={"tag": tag}))
+    for _ in range(n_gram * 3):
+        d = gen.directive_text(rng)
+        cases.append(ctx.case("directive", rng.choice(["%s\n", "begin\n  %s\n  Foo;\nend.\n", "Foo(A, %s B);\n", "%s %s\n" % ("%s", gen.directive_text(rng).replace("%", "%%"))]) % d, gen.random_cfg(rng)))
     return cases
 
 
@@ -543,6 +546,10 @@ def wellformed_texts(ctx, n_gram):
         out.append((gen.child_line_program(ctx.rng), "childline", ctx.rng.choice([30, 60, 120, 120])))
     for text, tag in placement_sample(ctx):
         out.append((text, "placement", ctx.rng.choice([30, 120])))
+    for _ in range(n_gram):
+        d = gen.directive_text(ctx.rng)
+        if d.endswith(("}", "*)")) and "\n" not in d:
+            out.append(("begin\n  %s\n  Foo;\nend.\n" % d, "directive", 120))
     return out
 
 
@@ -892,6 +899,14 @@ def run_c09(ctx):
         for w in rng.sample(range(max(10, L - 12), L + 6), 3):
             c = (w,) + tuple(cfg[1:2]) + (1,) + tuple(cfg[3:6]) + (0,)
             pairs.append((ctx.case("mlit-inlf", text, c), ctx.case("mlit-incrlf", gen.to_crlf(text), c), {"what": "input"}))
+    # the whole domain of the indentation settings, the saturating region (tab_width x continuation_indents > 255) included: the
+    # line ending must not depend on any other setting
+    for text, kind, wrap in pool[:: ctx.n(8, 2)]:
+        if "\r" in text or gen.has_multiline_token(text) or gen.has_asm_or_toggle(text):
+            continue
+        cfg = gen.random_cfg(rng)
+        ext = cfg[:3] + (rng.randrange(2), rng.choice([0, 1, 15, 16, 17, 64, 128, 255]), rng.choice([0, 1, 15, 16, 17, 100, 255]))
+        pairs.append((ctx.case("extreme-lf", text, ext + (0,)), ctx.case("extreme-crlf", text, ext + (1,)), {"what": "config", "vm": False}))
     from . import findings as _f9
     for fid, text, cfg, cursors, w in _f9.witness_inputs("C09"):
         if "\r\n" in text:
@@ -946,7 +961,31 @@ def run_c09(ctx):
             sample.append(ctx.case("literal-formatted", t, flip))
             sample.append(ctx.case("literal-formatted", t.replace("\r\n", "\n") if "\r\n" in t else t.replace("\n", "\r\n"), r.case.cfg))
     ctx.run_stream(sample, units=["recon", "settings", "mlstring", "mlvalue"])
+    settings_grid(ctx)
     ctx.hypotheses["H-W2 (the wrapper's plan does not depend on the newline string)"] = "lf/crlf configuration pairs on the real formatter"
+
+
+def settings_grid(ctx):
+    """the settings conversion (From<&FormattingConfig> for ReconstructionSettings: newline, indentation and continuation
+    strings) on a grid of configurations, through the model (exhaustive in the thorough tier)"""
+    import subprocess
+    p = subprocess.run([build.VH, "unit", "settings", ctx.tier], stdout=subprocess.PIPE, env=build.ENV, timeout=600)
+    grid = os.path.join(build.CACHE, "run", "grid_%d.txt" % os.getpid())
+    os.makedirs(os.path.dirname(grid), exist_ok=True)
+    with open(grid, "wb") as f:
+        f.write(p.stdout)
+    q = subprocess.run([build.DRIVER, "settings-grid", grid], stdout=subprocess.PIPE, timeout=1200)
+    os.remove(grid)
+    n_ok = n_bad = 0
+    for line in q.stdout.decode().splitlines():
+        if line.startswith("GRID OK"):
+            n_ok = int(line.split()[2])
+        elif line.startswith("GRID DIFF"):
+            n_bad += 1
+            ctx.corr_diffs.append(("grid", "settings", line))
+    ctx.corr_counts["settings_grid"] = [n_ok, n_bad]
+    ctx.traces_validated += n_ok
+    ctx.evaluations += n_ok + n_bad
 
 
 # ------------------------------------------------------------------ C10
@@ -983,25 +1022,7 @@ def run_c10(ctx):
                      observed=rb.out.hex()[:1500], expected=expand(ra.out, meta["tw"]).hex()[:1500])
 
     run_pairs(ctx, pairs, compare)
-    # the settings conversion on a grid, through the model (exhaustive in the thorough tier)
-    import subprocess
-    p = subprocess.run([build.VH, "unit", "settings", ctx.tier], stdout=subprocess.PIPE, env=build.ENV, timeout=600)
-    grid = os.path.join(build.CACHE, "run", "grid_%d.txt" % os.getpid())
-    os.makedirs(os.path.dirname(grid), exist_ok=True)
-    with open(grid, "wb") as f:
-        f.write(p.stdout)
-    q = subprocess.run([build.DRIVER, "settings-grid", grid], stdout=subprocess.PIPE, timeout=1200)
-    os.remove(grid)
-    n_ok = n_bad = 0
-    for line in q.stdout.decode().splitlines():
-        if line.startswith("GRID OK"):
-            n_ok = int(line.split()[2])
-        elif line.startswith("GRID DIFF"):
-            n_bad += 1
-            ctx.corr_diffs.append(("grid", "settings", line))
-    ctx.corr_counts["settings_grid"] = [n_ok, n_bad]
-    ctx.traces_validated += n_ok
-    ctx.evaluations += n_ok + n_bad
+    settings_grid(ctx)
     sample = [ctx.case("trace", t, gen.random_cfg(rng)) for t, _, _ in pool[:: max(1, len(pool) // ctx.n(300, 3000))]]
     # the wrapper measures a line with the strings the reconstructor emits: its logged line length of every decided
     # token against the model of get_token_line_length and against the rendered column, under narrow widths too
